@@ -3,7 +3,8 @@
    The model is Model/Convert.v (tied to yaql/language/utils.py and to
    '#finalize' / Statement.evaluate by harness/props/c10.py). *)
 From Coq Require Import List ZArith Bool.
-From YV Require Import Common.Corr Model.Convert Model.ConvertId Lemmas.ConvertBase Lemmas.ConvertSpec Lemmas.ConvertIdem Lemmas.ConvertFresh.
+From YV Require Import Common.Corr Model.Convert Model.ConvertId Lemmas.ConvertBase Lemmas.ConvertSpec Lemmas.ConvertIdem Lemmas.ConvertFresh
+  Model.ConvertLim Lemmas.ConvertLimSpec.
 Import ListNotations.
 
 (* Whatever finalisation returns is plain data under the options in force, at
@@ -121,6 +122,50 @@ Theorem C10_dollar_fresh : forall o d n r n',
   (forall i, In i (cells r) -> ~ In i (cells d)) /\ convert_output o (convert_input (erase d)) = Ok (erase r).
 Proof. exact dollar_fresh. Qed.
 
+(* ---- the limit_func argument (Model/ConvertLim.v) ---------------------------------------- *)
+(* convert_output_data iterates every collection through limit_func.  A limiter is
+   abstract: of a collection of n elements it lets a PREFIX through and may then raise
+   CollectionTooLargeException.  [co_lim lim] follows the code's evaluation order
+   (value, key, hash, item by item), which two error classes make observable. *)
+
+(* plain results whatever the limiter does *)
+Theorem C10_lim_plain : forall lim o v r, co_lim lim o v = LOk r -> plainb o r = true.
+Proof. exact co_lim_plain. Qed.
+
+(* a limiter that is all-or-error (limit_iterable is: C10_lim_count_all_or_error) can only
+   turn a success into an error, never change a result: whenever finalisation with the
+   limiter succeeds, it returns what the unlimited conversion returns - so C10_roundtrip,
+   C10_total_guarded (necessity), C10_idempotent, C10_result_wellformed apply to it *)
+Theorem C10_lim_all_or_error : forall lim, all_or_error lim ->
+  forall o v r, co_lim lim o v = LOk r -> convert_output o v = Ok r.
+Proof. exact co_lim_agree. Qed.
+
+Theorem C10_lim_count_all_or_error : forall N, all_or_error (count_lim N).
+Proof. exact count_lim_all_or_error. Qed.
+
+(* the identity limiter is Model/Convert.v's convert_output; more generally a limiter that
+   lets collections up to the value's width through changes nothing, errors included *)
+Theorem C10_lim_identity : forall o v, co_lim id_lim o v = embed (convert_output o v).
+Proof. exact co_lim_id. Qed.
+
+Theorem C10_lim_passes : forall lim o v, passes lim (width v) -> co_lim lim o v = embed (convert_output o v).
+Proof. exact co_lim_passes. Qed.
+
+(* with yaql.limitIterators = N: round trip and the exact guard for values no wider than N *)
+Theorem C10_lim_roundtrip : forall N o d, jsonlike d = true -> width (convert_input d) <= N ->
+  co_lim (count_lim (Some N)) o (convert_input d) = LOk (canon o d).
+Proof. exact co_lim_roundtrip. Qed.
+
+Theorem C10_lim_total : forall N o v, width v <= N ->
+  (guard o v = true <-> exists r, co_lim (count_lim (Some N)) o v = LOk r).
+Proof. exact co_lim_total. Qed.
+
+(* Relation to C08 (coq/Model/Limits.v, read only): its [fin N o] is this function for
+   lim = count_lim, on a smaller value universe (no frozen/host distinction, no views, no
+   bool/float) extended with endless sources and pull counting; both convert the value of
+   a dict item before its key and hash item by item.  The two are tied to the same Python
+   function by their correspondences; no Coq bridge between the two value types is stated. *)
+
 (* ---- non-vacuity --------------------------------------------------------------- *)
 Definition s_a : str := [97%Z].
 Definition doc := VDict [(VStr s_a, VList [VInt 1; VTuple [VNull; VFloat 0]; VSet [VInt 2; VStr s_a]]);
@@ -177,6 +222,21 @@ Example aliasing_example :
 Proof. reflexivity. Qed.
 Example fresh_okb_rejects_alias :
   fresh_okb 3 (IList 7 [IList 1 [IInt 5]]) = false /\ fresh_okb 3 (IList 7 [IList 4 []; IList 4 []]) = false.
+Proof. split; reflexivity. Qed.
+
+(* limiter: a sized collection is refused before anything is converted; an iterator only
+   after N elements were converted, so an earlier TypeError wins *)
+Example lim_sized_first :
+  co_lim (count_lim (Some 1)) default_opts (VList [VDict [(VTuple [], VNull)]; VInt 2]) = LErr LTooLarge.
+Proof. reflexivity. Qed.
+Example lim_iter_later :
+  co_lim (count_lim (Some 1)) default_opts (VIter [VDict [(VTuple [], VNull)]; VInt 2]) = LErr LPyType
+  /\ co_lim (count_lim (Some 1)) default_opts (VIter [VInt 1; VDict [(VTuple [], VNull)]]) = LErr LTooLarge
+  /\ co_lim (count_lim (Some 2)) default_opts (VIter [VInt 1; VTuple [VInt 2]]) = LOk (VList [VInt 1; VList [VInt 2]]).
+Proof. repeat split; reflexivity. Qed.
+Example lim_value_before_key :
+  co_lim (count_lim (Some 1)) default_opts (VDict [(VTuple [], VList [VInt 1; VInt 2])]) = LErr LTooLarge
+  /\ co_lim (count_lim (Some 1)) default_opts (VDict [(VTuple [], VList [VInt 1])]) = LErr LPyType.
 Proof. split; reflexivity. Qed.
 
 Example hash_rule :
